@@ -67,9 +67,16 @@ def gen(rng, tier):
         ops.append(v)
     cur = ops[0]
     targets = []
+    p_generic = rng.choice([0.0, 0.0, 0.3, 0.6])
     for o in ops[1:]:
         v = f"v{len(steps)}"
-        steps.append({"op": "binary", "in": [cur, o], "args": {"f": rng.choice(["add", "mul", "maximum", "sub"])}, "out": v})
+        same_shape = sources[_src_of(steps, cur)]["shape"] == sources[_src_of(steps, o)]["shape"] if _src_of(steps, cur) and _src_of(steps, o) else False
+        if same_shape and rng.random() < p_generic:
+            # a generic Blockwise node (da.blockwise / map_blocks over two arrays): Blockwise._lower, not Elemwise._lower
+            # (da.blockwise aligns its operands; da.map_blocks passes align_arrays=False by design, as upstream)
+            steps.append({"op": "blockwise2", "in": [cur, o], "args": {"how": "blockwise"}, "out": v})
+        else:
+            steps.append({"op": "binary", "in": [cur, o], "args": {"f": rng.choice(["add", "mul", "maximum", "sub"])}, "out": v})
         cur = v
         targets.append(v)
     recipe = {"sources": sources, "generators": {}, "steps": steps}
@@ -109,6 +116,19 @@ def gen(rng, tier):
         hist.append({"ev": "materialise", "var": t})
         hist.append(dict({"ev": "compute", "var": t}, **H.rand_sched(rng)))
     return {"recipe": recipe, "targets": targets, "history": hist}
+
+
+def _src_of(steps, v):
+    """The source name a chain of unary steps starts from (None if v is a combined node)."""
+    by = {s_["out"]: s_ for s_ in steps}
+    while v in by:
+        s_ = by[v]
+        if s_["op"] == "from_array":
+            return s_["args"]["src"]
+        if s_["op"] != "unary":
+            return None
+        v = s_["in"][0]
+    return None
 
 
 def shape_of(case, stats):
@@ -178,14 +198,23 @@ def _policy_dependent(node):
 
 
 def check_pair(raw, low, policy, limit, stats, where, depth=0):
-    from dask_array._blockwise import Elemwise
+    from dask_array._blockwise import Blockwise, Elemwise
     from dask_array._expr import ArrayExpr
 
-    if not isinstance(raw, Elemwise) or not isinstance(low, Elemwise):
+    def operands(n):
+        if isinstance(n, Elemwise):
+            return [a for a in n.elemwise_args if isinstance(a, ArrayExpr)]
+        if type(n) is Blockwise and all(tuple(i) == tuple(n.out_ind) for i in n.args[1::2] if i is not None):
+            # generic blockwise whose operands all carry the output's index labels (positional correspondence)
+            return [a for a in n.args[::2] if isinstance(a, ArrayExpr)]
+        return None
+
+    rargs, largs = operands(raw), operands(low)
+    if rargs is None or largs is None or type(raw) is not type(low):
         stats["skipped_pairs"] = stats.get("skipped_pairs", 0) + 1
         return
-    rargs = [a for a in raw.elemwise_args if isinstance(a, ArrayExpr)]
-    largs = [a for a in low.elemwise_args if isinstance(a, ArrayExpr)]
+    if type(raw) is Blockwise:
+        stats["probe.generic_blockwise_pairs"] = stats.get("probe.generic_blockwise_pairs", 0) + 1
     if len(rargs) != len(largs) or any(r.shape != l.shape for r, l in zip(rargs, largs)):
         stats["skipped_pairs"] = stats.get("skipped_pairs", 0) + 1
         return
